@@ -11,7 +11,8 @@ RULE = ('scenario = 1-3 files x scripted pass groups (deleting/growing/neutral/u
         'schedule; run by the REAL CVise.reduce / TestManager.run_pass under the shim; oracle: after every run_pass return or '
         'raise and at the end the on-disk tuple is the original or was logged with exit 0 by the instrumented test; '
         'correspondence with the Coq model (final files, accepted sequence, exit kind, report dirs); non-trivial = distinct '
-        'scenarios that commit at least one step and see at least one non-zero verdict')
+        'scenarios that commit at least one step and see at least one non-zero verdict'
+        ' Also: the real LinesPass (stand-in topformflat) reformatting the file in new() under tests that accept / reject the reformatted text, with and without --skip-interestingness-test-check.')
 TRUSTED = ['hand-written model coq/Driver/*.v tied to cvise/utils/testing.py + cvise/cvise.py by this correspondence run',
            'scheduler shim tools/vlib/shim.py; scripted-pass twin tools/vlib/scriptpass.py']
 ASSUMPTIONS = ['the interestingness test is a deterministic function of the joint contents',
